@@ -382,7 +382,7 @@ class BioConsert(RankAggAlgorithm, PairwiseBasedAlgorithm):
                 for id_elem2 in range(id_elem1+1, n):
                     if r[id_elem1] < r[id_elem2]:
                         dst_init += cost_matrix_1d[cpt1 + id_elem2 * 3]
-                    elif r[id_elem1] < r[id_elem2]:
+                    elif r[id_elem1] > r[id_elem2]:
                         dst_init += cost_matrix_1d[cpt1 + id_elem2 * 3 + 1]
                     else:
                         dst_init += cost_matrix_1d[cpt1 + id_elem2 * 3 + 2]
